@@ -16,6 +16,13 @@ pub struct Item {
     pub v: u64,
     /// write variant index (see write_variants)
     pub wvar: u8,
+    /// raw byte written right after the codeword (the bits a table look-ahead sees); 0xFFFF = none
+    #[serde(default = "no_follow")]
+    pub follow: u16,
+}
+
+pub fn no_follow() -> u16 {
+    0xFFFF
 }
 
 pub fn write_variants(code: Code, v: u64) -> Vec<WOp> {
@@ -165,6 +172,11 @@ pub fn check_stream(cfg: &StreamCfg, items: &[Item], diag: &Diag, out: &mut Outc
         encode_into(&mut model, it.code, it.v, e, true);
         marks.push((ops.len(), start, model.len()));
         ops.push(op);
+        if it.follow != 0xFFFF {
+            let f = WOp::WriteBits { v: it.follow as u64, n: 8 };
+            crate::wr::model_apply(&mut model, &f, e, cfg.wbits);
+            ops.push(f);
+        }
         let s1 = WOp::Code { code: Code::Delta, v: 5 };
         let s2 = WOp::WriteBits { v: SENT_RAW, n: 7 };
         crate::wr::model_apply(&mut model, &s1, e, cfg.wbits);
@@ -235,8 +247,8 @@ pub fn check_stream(cfg: &StreamCfg, items: &[Item], diag: &Diag, out: &mut Outc
                 pos += ret;
                 real_end.push(pos);
                 oi += 1;
-                // sentinel ops
-                for _ in 0..2 {
+                // follow byte + sentinel ops
+                for _ in 0..(2 + (it.follow != 0xFFFF) as usize) {
                     if let Some(WObs::Ret(n)) = fo.obs.get(oi) {
                         pos += n;
                     }
@@ -374,6 +386,14 @@ pub fn check_stream(cfg: &StreamCfg, items: &[Item], diag: &Diag, out: &mut Outc
             }
             rd = chosen.unwrap();
             mpos = t;
+            if it.follow != 0xFFFF {
+                let o = rd.apply(&ROp::ReadBits(8));
+                if o != RObs::Val(it.follow as u64) {
+                    out.violations.push(viol("C03", "stream-reader", rid.clone(), format!("read:{}:follow", it.code.family()), "value", format!("the byte after {:?}({}) read as {:?}, expected {}", it.code, it.v, o, it.follow), item_doc(cfg, items, ix, Some((kind, backend)))));
+                    break;
+                }
+                mpos += 8;
+            }
             // sentinel
             let o1 = rd.apply(&ROp::DeltaP(false, false));
             let o2 = rd.apply(&ROp::ReadBits(7));
